@@ -9,7 +9,11 @@
 //!      differences are modelled there one by one), the return value with the documented one, and every few calls
 //!      the whole observation is taken twice (a getter with a side effect shows as a difference);
 //!   2. STATEMENTS: the four properties are evaluated on the C observations before/after the call
-//!      (capi_props/props.rs).
+//!      (capi_props/props.rs);
+//!   3. RECORD: every call of the glue model (handlers, cand_*, buffer calls, ack, Reset) is a transcript record
+//!      `capiops call …` carrying the call, the facts the glue reads and what the twin actually fed to its Editor plus
+//!      the C return value; the Lean model of capi/src/io.rs (Model/CApiOps.lean) recomputes it (Driver/CApiOps.lean).
+//!      So on every call: Lean model = twin (record), twin = real C context (getter comparison).
 //! Any failure is an oracle verdict `!oracle Cxx new capi_props …` with the profile and the calls so far (the
 //! history is replayable: `capi_props --replay <trace-seed>`).  Histories run in worker child processes: a panic
 //! inside an `extern "C"` function aborts the process (crashes are C01's subject; they are counted and skipped).
@@ -206,8 +210,27 @@ fn trace(out: &mut Out, ctl: &mut Ctl, seed: u64, n_calls: usize, st: &mut Stats
             if verbose {
                 eprintln!("{} state {} pre {:?}", op.text(), pre_state as char, pre);
             }
+            let facts = glue_facts(&tw);
+            let kb_pre = kb_variant(&tw);
             let rc = unsafe { apply_c(ctx, &op) };
             let m = tw.apply(&op);
+            // transcript record of the call glue (Driver/CApiOps.lean recomputes the right-hand side from the Lean model
+            // of capi/src/io.rs): what the twin fed to its Editor, and the value the REAL C function returned
+            if let (Some((name, arg)), Some(call)) = (op.record_name(), m.call.text()) {
+                let res = match m.res {
+                    Some(true) => "ok",
+                    Some(false) => "err",
+                    None => "-",
+                };
+                out.rec(&format!("capiops call {} {} {} {} => {} {} {}", name, arg, facts, res, kb_pre, call, rc));
+                st.add("glue_records", 1);
+                if pre.selecting() && matches!(op, Op::Default(k) if pre.selkeys.contains(&k)) {
+                    st.add("glue_records_selection_key_under_open_list", 1);
+                }
+                if matches!(op, Op::Default(k) | Op::Numlock(k) | Op::CtrlNum(k) if !(0..=255).contains(&k)) {
+                    st.add("glue_records_key_outside_a_byte", 1);
+                }
+            }
             let post = unsafe { observe_c(ctx) };
             let tpost = observe_twin(&mut tw);
             let post_state = state_of(&post, &tw);
